@@ -25,6 +25,32 @@
 (*    value is for such a case is stated here (InDomain: the value domains  *)
 (*    BOLT gives the fields, not the Go types), and ValueLaw is the         *)
 (*    property's "decodes back to an equal value" for it.                   *)
+(*  - the RECORD-LEVEL part of the plan for the TLV extension every message *)
+(*    type carries after its fixed layout (operators rec-ins, rec-drop,     *)
+(*    rec-len; messages, and the failure message that has one).  The        *)
+(*    extension of the generated valid                                      *)
+(*    encoding is taken apart into its records <<type, value>> and          *)
+(*      rec-ins   ONE unknown record is put at its canonical position: its  *)
+(*                type from RecTypeClasses (odd / even, one per BigSize     *)
+(*                width of the type, below / inside the custom range        *)
+(*                >= 65536, inside / outside the signed ranges of the       *)
+(*                pure-TLV gossip messages), its value length from          *)
+(*                LenClasses (EMPTY, 1, and both sides of the 1|3-byte      *)
+(*                BigSize length boundary);                                 *)
+(*      rec-drop  the first / middle / last record present, or all of them, *)
+(*                is removed (presence / absence of the optional records);  *)
+(*      rec-len   the value of the first / middle / last record present is  *)
+(*                emptied, shortened or lengthened by one byte or by one    *)
+(*                8-byte element, or doubled, its length prefix adjusted:   *)
+(*                the stream stays a canonical TLV stream while the record  *)
+(*                no longer agrees with its own layout or with the fields   *)
+(*                of the message it has to be consistent with.              *)
+(*    The inputs of all three are canonical TLV streams after an intact     *)
+(*    fixed part.  RecAccept / RecPreserved are the property's "unknown     *)
+(*    records and trailing extension data preserved" for rec-ins (the       *)
+(*    partition / merge model that shows WHY a correct codec satisfies them *)
+(*    is spec/WireLaws/WireExt.tla); rec-drop and rec-len are judged by     *)
+(*    Totality / Bound / Fixpoint: an accepted message must re-encode.      *)
 (***************************************************************************)
 EXTENDS Naturals, Sequences, FiniteSets, TLC
 
@@ -56,16 +82,59 @@ BufAfter(pre, plen) == IF WriteOk(plen) THEN pre + 2 + plen ELSE pre
 Kinds == <<"msg", "fail", "pkt">>          \* wire message | failure message | padded onion failure packet
 Ops == <<"valid", "trunc-1", "trunc", "trunc+1", "len-1", "len+1",
          "tail-odd", "tail-even", "tail-unsorted", "tail-nonmin", "flip", "raw", "ext-odd", "len-max", "var-bound",
-         "val-int", "val-bytes", "val-len">>
+         "val-int", "val-bytes", "val-len", "rec-ins", "rec-drop", "rec-len">>
 \* value-boundary classes (symbolic: TLC integers are 32 bit)
 IntClasses   == <<"i0", "ifc", "ifd", "iffff", "i10000", "iffffffff", "i100000000", "imax">>
 BytesClasses == <<"b00", "bz", "bff", "butf">>
 LenClasses   == <<"l0", "l1", "lfc", "lfd", "lff", "l100">>
-Poss == <<"-", "head", "mid", "tail", "short", "medium", "long">> \o IntClasses \o BytesClasses \o LenClasses
 Range(seq) == {seq[i] : i \in 1..Len(seq)}
 ValOps == {"val-int", "val-bytes", "val-len"}
 
+\* record-level classes (symbolic like the integer classes: two of the types do not fit TLC's integers).
+\*   name      type          BigSize width of the type   parity  range
+\*   o9d       157           1                           odd     below the custom range; 1st signed range of pure-TLV messages
+\*   ofb       251           1 (last odd 1-byte type)    odd     below
+\*   efc       252           1 (last 1-byte type)        even    below
+\*   ofd       253           3 (first 3-byte type)       odd     below
+\*   efffe     65534         3                           even    below
+\*   offff     65535         3 (last below custom)       odd     below
+\*   c10001    65537         5 (first odd custom type)   odd     custom range
+\*   s3b9aca01 1000000001    5                           odd     custom range; 2nd signed range of pure-TLV messages
+\*   cffffffff 4294967295    5 (last 5-byte type)        odd     custom range
+\*   c100000001 4294967297   9 (first odd 9-byte type)   odd     custom range
+\* None of them is a typed record of any lnd message (types 0..22, 160, 55555, 65536).
+RecTypeClasses == <<"o9d", "ofb", "efc", "ofd", "efffe", "offff", "c10001", "s3b9aca01", "cffffffff", "c100000001">>
+TcOdd(c)    == c \notin {"efc", "efffe"}
+TcWidth(c)  == CASE c \in {"o9d", "ofb", "efc"} -> 1 [] c \in {"ofd", "efffe", "offff"} -> 3
+                 [] c = "c100000001" -> 9 [] OTHER -> 5
+TcCustom(c) == c \in {"c10001", "s3b9aca01", "cffffffff", "c100000001"}
+TcSigned(c) == c \in {"o9d", "s3b9aca01"}
+\* canonical order = numeric order of the types = the order of RecTypeClasses
+TcRank(c)   == CHOOSE i \in 1..Len(RecTypeClasses) : RecTypeClasses[i] = c
+RecSel       == <<"head", "mid", "tail">>
+DeltaClasses == <<"z", "m1", "p1", "m8", "p8", "dbl">>
+\* bytes the value must have for the resize to exist
+DeltaNeed(d) == CASE d = "p1" -> 0 [] d \in {"m8", "p8"} -> 8 [] OTHER -> 1
+Cross(A, B) == [i \in 1..(Len(A) * Len(B)) |-> A[((i - 1) \div Len(B)) + 1] \o "." \o B[((i - 1) % Len(B)) + 1]]
+RecInsPoss == Cross(RecTypeClasses, LenClasses)
+RecLenPoss == Cross(RecSel, DeltaClasses)
+RecOps == {"rec-ins", "rec-drop", "rec-len"}
+
+Poss == <<"-", "head", "mid", "tail", "short", "medium", "long">> \o IntClasses \o BytesClasses \o LenClasses
+        \o <<"all">> \o RecInsPoss \o RecLenPoss
+
 IndexOf(seq, x) == CHOOSE i \in 1..Len(seq) : seq[i] = x
+\* (constant tables: TLC evaluates them once)
+OpsSet  == Range(Ops)
+PossSet == Range(Poss)
+OpIdx   == [x \in OpsSet |-> IndexOf(Ops, x)]
+PosIdx  == [x \in PossSet |-> IndexOf(Poss, x)]
+KindIdx == [x \in Range(Kinds) |-> IndexOf(Kinds, x)]
+IntClassSet == Range(IntClasses)
+BytesClassSet == Range(BytesClasses)
+LenClassSet == Range(LenClasses)
+RecInsPosSet == Range(RecInsPoss)
+RecLenPosSet == Range(RecLenPoss)
 
 \* len-1/len+1: a 2-byte field whose value is the size of the next read; len-max: any 2-byte field := 0xffff
 \* var-bound: not a byte mutation either - one variable-length field of the generated VALUE (first/middle/last of
@@ -74,28 +143,38 @@ IndexOf(seq, x) == CHOOSE i \in 1..Len(seq) : seq[i] = x
 PosOf(op) == CASE op \in {"trunc-1", "trunc", "trunc+1", "flip", "len-max", "var-bound"} -> {"head", "mid", "tail"}
                [] op \in {"len-1", "len+1"}                      -> {"head", "tail"}
                [] op = "raw"                                     -> {"short", "medium", "long"}
-               [] op = "val-int"                                 -> Range(IntClasses)
-               [] op = "val-bytes"                               -> Range(BytesClasses)
-               [] op = "val-len"                                 -> Range(LenClasses)
+               [] op = "val-int"                                 -> IntClassSet
+               [] op = "val-bytes"                               -> BytesClassSet
+               [] op = "val-len"                                 -> LenClassSet
+               [] op = "rec-ins"                                 -> RecInsPosSet
+               [] op = "rec-drop"                                -> {"head", "mid", "tail", "all"}
+               [] op = "rec-len"                                 -> RecLenPosSet
                [] OTHER                                          -> {"-"}
 \* ext-odd: not a byte mutation - the generated VALUE gets one more unknown odd record in its extension
 \* data (canonical position) before it is encoded
 \* val-*: not a byte mutation - ONE field of the generated VALUE is set to the value of the boundary class,
 \* then the value is encoded and the laws are judged on that encoding (all three codecs: the failure-specific
 \* fields of every failure code go through EncodeFailureMessage and through the padded EncodeFailure packet)
-OpsOf(kind) == CASE kind = "pkt"  -> {"valid", "trunc-1", "trunc", "trunc+1", "len-1", "len+1", "flip", "raw", "len-max"} \cup ValOps
-                 [] kind = "fail" -> {Ops[i] : i \in 1..Len(Ops)} \ {"ext-odd", "var-bound"}
-                 [] OTHER         -> {Ops[i] : i \in 1..Len(Ops)}
+PktOps  == {"valid", "trunc-1", "trunc", "trunc+1", "len-1", "len+1", "flip", "raw", "len-max"} \cup ValOps
+FailOps == OpsSet \ {"ext-odd", "var-bound"}
+OpsOf(kind) == CASE kind = "pkt"  -> PktOps
+                 [] kind = "fail" -> FailOps
+                 [] OTHER         -> OpsSet
 TypesOf(kind) == IF kind = "msg" THEN MsgTypes ELSE FailCodes
+\* the record-level operators run on every message type and on the failure messages that end in a TLV extension
+\* (incorrect_or_unknown_payment_details, as the bare failure message; the padded packet is not taken apart)
+FailExtCodes == {16399}
+RecTypesOf(kind) == IF kind = "msg" THEN MsgTypes ELSE IF kind = "fail" THEN FailExtCodes ELSE {}
 
 Cell(kind, t, op, pos) ==
   [kind |-> kind, t |-> t, op |-> op, pos |-> pos,
-   ki |-> IndexOf(Kinds, kind), oi |-> IndexOf(Ops, op), pi |-> IndexOf(Poss, pos)]
-Plan == {Cell(k, t, op, pos) : k \in {"msg", "fail", "pkt"}, t \in MsgTypes \cup FailCodes,
-                               op \in {Ops[i] : i \in 1..Len(Ops)}, pos \in {Poss[i] : i \in 1..Len(Poss)}}
+   ki |-> KindIdx[kind], oi |-> OpIdx[op], pi |-> PosIdx[pos]]
 InPlan(c) == /\ c.kind \in {"msg", "fail", "pkt"} /\ c.t \in TypesOf(c.kind)
              /\ c.op \in OpsOf(c.kind) /\ c.pos \in PosOf(c.op)
-PlanCells == {c \in Plan : InPlan(c)}
+             /\ (c.op \in RecOps => c.t \in RecTypesOf(c.kind))
+PlanTriples == {x \in {"msg", "fail", "pkt"} \X (MsgTypes \cup FailCodes) \X Range(Ops) :
+                   x[2] \in TypesOf(x[1]) /\ x[3] \in OpsOf(x[1]) /\ (x[3] \in RecOps => x[2] \in RecTypesOf(x[1]))}
+PlanCells == UNION {{Cell(x[1], x[2], x[3], pos) : pos \in PosOf(x[3])} : x \in PlanTriples}
 Key(c, rep) == <<c.ki, c.t, c.oi, c.pi, rep>>
 
 \* lexicographic order on keys
@@ -180,5 +259,17 @@ Preserved(o) == o.op = "ext-odd" => (o.d1 = 1 /\ o.veq = 1 /\ o.same = 1)
 ValueLaw(o) == (o.op \in ValOps /\ InDomain(o)) =>
                   /\ (o.inlist = 0 => (o.e0 = 1 /\ o.d1 = 1))
                   /\ ((o.e0 = 1 /\ o.d1 = 1) => (o.same = 1 /\ (o.chg = 1 => o.veq = 1)))
+\* Record level.  Every message type has a TLV extension after its fixed layout except the ones BOLT 1 defines
+\* without (warning, error, ping, pong: their last field is a length-prefixed byte string) and onion_message.
+NoExtTypes == {1, 17, 18, 19, 513}
+NoExt(kind, t) == IF kind = "msg" THEN t \in NoExtTypes ELSE t \notin FailExtCodes
+\* rec-ins observation: tcls / lcls the classes of the inserted record, rkept = the extension of the re-encoding b2
+\* holds that record (same type, same value), same = b2 is the input.  The input's extension is canonical (the
+\* generated one plus one record at its canonical position), so: an unknown ODD record must not make the message
+\* fail ("it's ok to be odd"; lnwire leaves unknown even types to the caller, either answer is accepted here), and
+\* whatever is accepted comes back with the record in it and byte-identically.
+RecAccept(o)    == (o.op = "rec-ins" /\ TcOdd(o.tcls)) => o.d1 = 1
+RecPreserved(o) == (o.op = "rec-ins" /\ o.d1 = 1) => (o.e1 = 1 /\ o.rkept = 1 /\ o.same = 1)
 Laws(o) == Totality(o) /\ Bound(o) /\ Fixpoint(o) /\ RoundTrip(o) /\ Preserved(o) /\ ValueLaw(o)
+           /\ RecAccept(o) /\ RecPreserved(o)
 =============================================================================
